@@ -653,6 +653,111 @@ def pha_case(item):
     return res
 
 
+TI_SUITES = {"sha256": CS.TLS_AES_128_GCM_SHA256,
+             "sha384": CS.TLS_AES_256_GCM_SHA384}
+TI_NAMES = {"sha256": ["aes128gcm"], "sha384": ["aes256gcm"],
+            "both256": ["aes128gcm", "aes256gcm"],
+            "both384": ["aes256gcm", "aes128gcm"]}
+
+
+def ticket_identity_cases(tier):
+    L = []
+    for vhash in ("sha256", "sha384"):
+        for offer in ("sha256", "sha384", "both256", "both384"):
+            for secret in ("real", "fake"):
+                for age in ("fresh", "expired"):
+                    for own in (None, "c_ecdsa"):
+                        for ext_psk in (False, True):
+                            L.append((vhash, offer, secret, age, own,
+                                      ext_psk))
+    return L
+
+
+def ticket_identity_case(item):
+    """TLS 1.3 server with tickets and reqCert: a ticket issued to a
+    certificate-authenticated victim is *offered* by a second client under
+    every combination of (knows the resumption secret or not, offers a suite
+    with the ticket's hash or not, ticket within its lifetime or not, has a
+    certificate of its own or not, also offers an external PSK it knows).
+    The server may attribute the victim's chain only when the client ends up
+    resumed on that ticket, which needs the binder and so the secret."""
+    import copy
+    (vhash, offer, secret, age, own, ext_psk), seed = item
+    name = "ticket/%s-%s-%s-%s-%s-%s" % (vhash, offer, secret, age, own or
+                                         "nocert", "ext" if ext_psk else
+                                         "noext")
+    sset = {"ticketLifetime": 1000, "ticket_count": 1}
+    psk = [(b"verif-ext", b"\x33" * 32, "sha256")]
+    if ext_psk:
+        sset["pskConfigs"] = psk
+    vic = S.Scen("c05/" + name + "/victim", version=(3, 4), cred="rsa",
+                 client_cred="c_rsa", req_cert=True, tickets=True,
+                 suite=TI_SUITES[vhash], sset=sset)
+    pair, out = S.connect(vic, seed=seed)
+    if out["C"].status != "ok" or out["S"].status != "ok":
+        return name, None, ["victim handshake failed: %r %r" % (out["C"],
+                                                                out["S"])]
+    pair.drain()
+    vsess = pair.c.session
+    vfp = W.chain_fp(load_cred("c_rsa")[0])
+    if W.chain_fp(pair.s.session.clientCertChain) != vfp or \
+            not vsess.tickets:
+        return name, None, ["setup: victim not authenticated or no ticket"]
+    sess = copy.deepcopy(vsess)
+    for t in sess.tickets:
+        t.ticket_lifetime = 6 * 24 * 3600     # the client's own filter
+    if secret == "fake":
+        sess.resumptionMasterSecret = bytearray(
+            b"\xa5" * len(sess.resumptionMasterSecret))
+    now = SEAMS.now + (5000 if age == "expired" else 5)
+    cset = {"cipherNames": TI_NAMES[offer]}
+    if ext_psk:
+        cset["pskConfigs"] = psk
+    att = S.Scen("c05/" + name + "/second", version=(3, 4), cred="rsa",
+                 client_cred=own, req_cert=True, tickets=True, sset=sset,
+                 cset=cset)
+    st_c = att.client_settings()
+    st_c.cipherNames = TI_NAMES[offer]
+    st_s = att.server_settings()
+    SEAMS.reset(seed + 1, att.name, now=now)
+    pair2, out2 = S.connect(att, session=sess, reset=False, csettings=st_c,
+                            ssettings=st_s)
+    fails = []
+    s_ok = out2["S"].status == "ok"
+    c_ok = out2["C"].status == "ok"
+    got = W.chain_fp(pair2.s.session.clientCertChain) \
+        if s_ok and pair2.s.session else None
+    c_resumed = bool(c_ok and pair2.c.resumed)
+    ownfp = W.chain_fp(load_cred(own)[0]) if own else None
+    sig = ("ticket-identity", secret, age, "hash-match" if (
+        offer.startswith("both") or offer == vhash) else "hash-differs",
+        own or "nocert", ext_psk, out2["S"].sig()[:2], c_resumed,
+        "victim" if got == vfp else "own" if got and got == ownfp else
+        "none" if got is None else "other")
+    if s_ok:
+        if got == vfp:
+            if secret != "real":
+                fails.append("victim's chain attributed to a client that "
+                             "does not know the ticket's resumption secret")
+            elif not c_resumed:
+                fails.append("victim's chain attributed although the ticket "
+                             "was not the selected PSK (client not resumed)")
+            elif age == "expired":
+                fails.append("expired ticket restored the victim's identity")
+        elif got is not None and got != ownfp:
+            fails.append("unknown chain attributed: %r" % (got,))
+        elif got is not None and own is None:
+            fails.append("chain attributed to a client without a certificate")
+        if secret == "real" and age == "fresh" and not ext_psk and \
+                offer == vhash and got != vfp:
+            fails.append("honest resumption lost the client identity "
+                         "(got %r)" % (got,))
+    elif out2["S"].status == "exc" and not isinstance(
+            out2["S"].exc, (E.TLSAlert, E.TLSAbruptCloseError, OSError)):
+        fails.append("server raised %r" % (out2["S"].exc,))
+    return name, sig, fails
+
+
 def run(res, tier, seed):
     res.coverage["rule"] = (
         "proof sites (ServerKeyExchange signature, client CertificateVerify, "
@@ -703,7 +808,21 @@ def run(res, tier, seed):
         res.violation({"site": "pha", "class": lab.split("[")[0]},
                       {"corruption": lab, "fail": f}, {"pha": lab})
     res.section("post_handshake_auth", executions=r["n"])
-    res.coverage["distinct_nontrivial"] = n + nm + r["n"]
+    tc = ticket_identity_cases(tier)
+    nt = 0
+    for (name, sig, fails) in pmap(ticket_identity_case,
+                                   [(c, seed) for c in tc]):
+        nt += 1
+        res.count()
+        if sig is not None:
+            res.outcome(tuple(sig))
+        for f in fails:
+            res.violation({"site": "ticket-identity", "what": f[:50]},
+                          {"case": name, "fail": f}, {"ticket_identity": name})
+    res.section("ticket_identity", cases=nt, dimensions=(
+        "ticket hash x offered suites x knows secret x ticket age x own "
+        "certificate x external PSK"))
+    res.coverage["distinct_nontrivial"] = n + nm + r["n"] + nt
     res.assumptions.append("the prover's own sign-then-verify self-check is "
                            "bypassed by corrupting the serialised message, "
                            "not the key object")
